@@ -41,6 +41,8 @@ def call(eng, st, canon, node, guard):
             return eng.ref_len(st, a)
         if isinstance(a, tuple):
             return len(a)
+        if isinstance(a, sx.Vec):
+            return a.length
         raise Unsupported("len of %r" % (a,))
     if canon in ("min", "max") and len(args) == 2:
         a, b = to_z3(args[0]), to_z3(args[1])
@@ -89,6 +91,41 @@ def call(eng, st, canon, node, guard):
             st.pc.append(z3.ForAll([j], z3.Implies(z3.And(0 <= j, j < n), z3.Select(arr, j) >= m)))
         st.pc.append(z3.And(0 <= k, k < n, z3.Select(arr, k) == m))
         return m
+    if canon == "numpy.count_nonzero":
+        USED.add("numpy.count_nonzero = number of true entries")
+        v = eng.as_vec(st, args[0])
+        if v is None:
+            raise Unsupported("count_nonzero of a non-vector")
+        k = eng.cnz_seen = getattr(eng, "cnz_seen", 0) + 1
+        if k > len(eng.contract.vec_counts):
+            raise sx.ContractError("count_nonzero #%d has no spec in the sidecar (vec_counts)" % k)
+        sname, arg_srcs = eng.contract.vec_counts[k - 1]
+        spec = eng.specs[sname]
+        sargs = [eng.evc(a, st, guard) for a in arg_srcs]
+        fn = eng.fn_key.split("::")[-1]
+        j = sx.fresh("cnzj", I)
+        at_j = spec.apply(eng, st, sargs + [j])
+        at_j1 = spec.apply(eng, st, sargs + [j + 1])
+        at_0 = spec.apply(eng, st, sargs + [0])
+        # the sidecar's counting spec must be, pointwise, the vector expression that the code counts
+        eng.emit("%s.count_nonzero%d.is_%s.zero" % (fn, k, sname), "assert", st, at_0 == 0, node.lineno, guard)
+        eng.emit("%s.count_nonzero%d.is_%s.step" % (fn, k, sname), "assert", st,
+                 z3.Implies(z3.And(j >= 0, j < v.length), at_j1 == at_j + z3.If(sx.to_bool(v.at(j)), 1, 0)), node.lineno, guard,
+                 note="pointwise: %s counts exactly the entries the code counts" % sname)
+        return spec.apply(eng, st, sargs + [v.length])
+    if canon == "numpy.vdot":
+        USED.add("numpy.vdot = sum of products (unrolled for a literal length)")
+        a, b = args
+        if isinstance(b, tuple) and isinstance(a, Ref):
+            n = len(b)
+            eng.emit("%s.safety.vdot_len@L%s" % (eng.fn_key.split("::")[-1], node.lineno - eng.fndef.lineno), "safety", st,
+                     eng.ref_len(st, a) == n, node.lineno, guard, note="vdot operands of equal length")
+            tot = 0
+            for k in range(n):
+                tot = eng.arith(ast.Add(), tot, eng.arith(ast.Mult(), eng.sel(st, a, [k]), b[k], st, node.lineno, guard),
+                                st, node.lineno, guard)
+            return tot
+        raise Unsupported("vdot of these operands")
     raise Unsupported("call to %s at line %s (no contract, no external model)" % (canon, node.lineno))
 
 
